@@ -135,6 +135,26 @@ fn raw_dump(p: &Path) -> String {
         _ => format!("?{:x}", mode),
     }
 }
+// owner, group and modification time of every entry below p (what raw_dump does not print): a lower layer must keep them too
+fn meta_dump(p: &Path) -> String {
+    let md = match std::fs::symlink_metadata(p) {
+        Ok(m) => m,
+        Err(e) => return format!("!err{}", errno(&e)),
+    };
+    let mut s = format!("{}:{}:{}.{}:{:o}", md.uid(), md.gid(), md.mtime(), md.mtime_nsec(), md.mode());
+    if md.mode() & libc::S_IFMT == libc::S_IFDIR {
+        let mut names: Vec<_> = std::fs::read_dir(p)
+            .map(|it| it.filter_map(|e| e.ok()).map(|e| e.file_name()).collect())
+            .unwrap_or_default();
+        names.sort();
+        s.push('(');
+        for n in names {
+            s.push_str(&format!("{}={},", n.to_string_lossy(), meta_dump(&p.join(&n))));
+        }
+        s.push(')');
+    }
+    s
+}
 fn set_xattr(p: &Path, k: &str, v: &[u8]) {
     let cp = CString::new(p.as_os_str().as_bytes()).unwrap();
     let ck = cstr(k);
@@ -751,6 +771,36 @@ impl<'a> Ovl<'a> {
                 let _ = self.fs.release(c, i, 0, h, false, false, None);
                 r
             }
+            "setattrh" => {
+                // setattrh <path> <open flag word> <valid letters m s u g a t n k> <modehex> <size> <uid> <gid>: SETATTR carrying the handle
+                let i = self.walk(w[1])?;
+                let (h, _, _) = self.fs.open(c, i, parse_flags(w[2]) as u32, 0)?;
+                let h = h.unwrap_or(0);
+                let mut st: libc::stat64 = unsafe { std::mem::zeroed() };
+                let mut valid = SetattrValid::empty();
+                for ch in w[3].chars() {
+                    valid |= match ch {
+                        'm' => SetattrValid::MODE,
+                        's' => SetattrValid::SIZE,
+                        'u' => SetattrValid::UID,
+                        'g' => SetattrValid::GID,
+                        'a' => SetattrValid::ATIME,
+                        't' => SetattrValid::MTIME,
+                        'k' => SetattrValid::KILL_SUIDGID,
+                        'n' => SetattrValid::ATIME_NOW | SetattrValid::MTIME_NOW,
+                        _ => panic!("bad valid letter"),
+                    };
+                }
+                st.st_mode = u32::from_str_radix(w[4], 16).unwrap();
+                st.st_size = w[5].parse::<i64>().unwrap();
+                st.st_uid = w[6].parse().unwrap();
+                st.st_gid = w[7].parse().unwrap();
+                st.st_atime = 1_000_000;
+                st.st_mtime = 2_000_000;
+                let r = self.fs.setattr(c, i, st, Some(h), valid).map(|(a, _)| Self::kind_of(&a));
+                let _ = self.fs.release(c, i, 0, h, false, false, None);
+                r
+            }
             "fsyncdir" => {
                 let i = self.walk(w[1])?;
                 let (h, _) = self.fs.opendir(c, i, libc::O_RDONLY as u32)?;
@@ -923,10 +973,12 @@ fn run_case(lines: &[String], scratch: &Path, out: &mut impl Write) {
     }
     let dirs: Vec<PathBuf> = layer_dir.values().cloned().collect();
     let mut raws: Vec<String> = vec![];
+    let mut metas: Vec<String> = vec![];
     for (k, d) in &layer_dir {
         let r = raw_dump(d);
         writeln!(out, "raw {} {}", k, r).unwrap();
         raws.push(r);
+        metas.push(meta_dump(d));
     }
     let fs = match new_overlay(&dirs, has_upper, &cfg) {
         Ok(f) => f,
@@ -973,9 +1025,15 @@ fn run_case(lines: &[String], scratch: &Path, out: &mut impl Write) {
                 continue;
             }
             let r = raw_dump(d);
+            let m = meta_dump(d);
             if r != raws[j] {
                 writeln!(out, "lowerchg {} {} {}", i, k, r).unwrap();
                 raws[j] = r;
+                metas[j] = m;
+            } else if m != metas[j] {
+                // same names, modes, contents and xattrs, but an owner / group / modification time changed
+                writeln!(out, "lowerchg {} {} meta:{}", i, k, m.replace(' ', "_")).unwrap();
+                metas[j] = m;
             }
         }
     }
